@@ -154,7 +154,8 @@ CHECKS = {
                   "generated census of shared mutable objects, their writers "
                   "and escapes, and of writes through self in the "
                   "request-time methods of Application (source-to-Coq "
-                  "translation, policy theorems by vm_compute)"),
+                  "translation, policy theorems by vm_compute)"
+                  " + source-to-Coq translation of the configuration accessors of Application with proved equality to a model (last accepted assignment wins, frame) + generated census of configuration writers"),
     "C18": dict(
         text="Theorems: parse_range(render_ranges units rs) = {units: rs} "
              "for every list of first-last / first- / -suffix items with "
